@@ -50,6 +50,16 @@ def small_variant(r, ref, t, seq, start, kind):
     return dict(tx=t.id, gene=t.gene, start=start, end=end, ref=rf, alt=alt, id=vid, type=typ, gstart=gs, gend=ge)
 
 
+def del_at(ref, t, seq, pos, n=1):
+    """deletion of the n bases after transcript position pos (the anchor)"""
+    gs = gene_pos(ref, t, pos); ge = gene_pos(ref, t, pos + n) + 1
+    if ge - gs != n + 1:
+        return None
+    rf = seq[pos:pos + n + 1]
+    return dict(tx=t.id, gene=t.gene, start=pos, end=pos + n + 1, ref=rf, alt=rf[0], id=f'INDEL-{gs + 1}-{rf}-{rf[0]}', type='INDEL',
+                gstart=gs, gend=ge)
+
+
 def overlaps_any(v, vs):
     return any(v['id'] == w['id'] or (v['start'] == w['start'] and v['ref'] == w['ref'] and v['alt'] == w['alt']) for w in vs)
 
